@@ -12,13 +12,13 @@ Open Scope Z_scope.
 
 (** * Operator forms: [expect] of the checked forms *)
 (* impl Add<TimeDelta> for NaiveDate / impl Sub<TimeDelta> for NaiveDate *)
-Definition op_dadd_td (d : Z) (rhs : td) : R Z := unwrap_r (D.checked_add_signed d rhs).
-Definition op_dsub_td (d : Z) (rhs : td) : R Z := unwrap_r (D.checked_sub_signed d rhs).
+Definition op_dadd_td (d : Z) (rhs : td) : R Z := unwrap_r (Date.checked_add_signed d rhs).
+Definition op_dsub_td (d : Z) (rhs : td) : R Z := unwrap_r (Date.checked_sub_signed d rhs).
 (* impl Add<Days> for NaiveDate / impl Sub<Days> for NaiveDate *)
-Definition op_dadd_days (d n : Z) : R Z := unwrap_r (D.checked_add_days d n).
-Definition op_dsub_days (d n : Z) : R Z := unwrap_r (D.checked_sub_days d n).
+Definition op_dadd_days (d n : Z) : R Z := unwrap_r (Date.checked_add_days d n).
+Definition op_dsub_days (d n : Z) : R Z := unwrap_r (Date.checked_sub_days d n).
 (* impl Sub<NaiveDate> for NaiveDate *)
-Definition op_dsub_date (a b : Z) : R td := D.signed_duration_since a b.
+Definition op_dsub_date (a b : Z) : R td := Date.signed_duration_since a b.
 
 (* impl Add<TimeDelta> for NaiveDateTime / impl Sub<TimeDelta> for NaiveDateTime *)
 Definition op_nadd_td (a : ndt) (rhs : td) : R ndt := unwrap_r (ndt_checked_add_signed a rhs).
@@ -60,28 +60,28 @@ Definition op_zsub_z (a b : dtz) : R td := dz_signed_duration_since a b.
 (* impl Iterator for NaiveDateDaysIterator: fn next
      let current = self.value; self.value = current.succ_opt()?; Some(current) *)
 Definition days_next (v : Z) : R (option Z * Z) :=
-  let* o := D.succ_opt v in
+  let* o := Date.succ_opt v in
   Val (match o with Some n => (Some v, n) | None => (None, v) end).
 (* impl DoubleEndedIterator for NaiveDateDaysIterator: fn next_back *)
 Definition days_next_back (v : Z) : R (option Z * Z) :=
-  let* o := D.pred_opt v in
+  let* o := Date.pred_opt v in
   Val (match o with Some n => (Some v, n) | None => (None, v) end).
 (* fn size_hint: let exact_size = NaiveDate::MAX.signed_duration_since(self.value).num_days();
                  (exact_size as usize, Some(exact_size as usize)) *)
 Definition days_size_hint (v : Z) : R (Z * option Z) :=
-  let* dd := D.signed_duration_since D.D_MAX v in
+  let* dd := Date.signed_duration_since Date.D_MAX v in
   let* exact_size := num_days dd in
   Val (as_usize exact_size, Some (as_usize exact_size)).
 
 (* impl Iterator for NaiveDateWeeksIterator: self.value = current.checked_add_days(Days::new(7))? *)
 Definition weeks_next (v : Z) : R (option Z * Z) :=
-  let* o := D.checked_add_days v 7 in
+  let* o := Date.checked_add_days v 7 in
   Val (match o with Some n => (Some v, n) | None => (None, v) end).
 Definition weeks_next_back (v : Z) : R (option Z * Z) :=
-  let* o := D.checked_sub_days v 7 in
+  let* o := Date.checked_sub_days v 7 in
   Val (match o with Some n => (Some v, n) | None => (None, v) end).
 Definition weeks_size_hint (v : Z) : R (Z * option Z) :=
-  let* dd := D.signed_duration_since D.D_MAX v in
+  let* dd := Date.signed_duration_since Date.D_MAX v in
   let* exact_size := num_weeks dd in
   Val (as_usize exact_size, Some (as_usize exact_size)).
 
@@ -186,11 +186,11 @@ Definition run (op : bytes) (args : list val) : val :=
   else if op_is op "ar.addstd" then
     a_std dec_ndt args (fun a sg s n => val_of_R enc_ndt (if sg then op_nadd_std a s n else op_nsub_std a s n))
   (* NaiveDate *)
-  else if op_is op "ar.dadd" then a2 dec_date arg_u64 args (fun d n => val_of_R vo_date (D.checked_add_days d n))
-  else if op_is op "ar.dsub" then a2 dec_date arg_u64 args (fun d n => val_of_R vo_date (D.checked_sub_days d n))
-  else if op_is op "ar.dadds" then a2 dec_date dec_td args (fun d x => val_of_R vo_date (D.checked_add_signed d x))
-  else if op_is op "ar.dsubs" then a2 dec_date dec_td args (fun d x => val_of_R vo_date (D.checked_sub_signed d x))
-  else if op_is op "ar.ddiff" then a2 dec_date dec_date args (fun a b => val_of_R enc_td (D.signed_duration_since a b))
+  else if op_is op "ar.dadd" then a2 dec_date arg_u64 args (fun d n => val_of_R vo_date (Date.checked_add_days d n))
+  else if op_is op "ar.dsub" then a2 dec_date arg_u64 args (fun d n => val_of_R vo_date (Date.checked_sub_days d n))
+  else if op_is op "ar.dadds" then a2 dec_date dec_td args (fun d x => val_of_R vo_date (Date.checked_add_signed d x))
+  else if op_is op "ar.dsubs" then a2 dec_date dec_td args (fun d x => val_of_R vo_date (Date.checked_sub_signed d x))
+  else if op_is op "ar.ddiff" then a2 dec_date dec_date args (fun a b => val_of_R enc_td (Date.signed_duration_since a b))
   else if op_is op "ar.opdadd" then a2 dec_date arg_u64 args (fun d n => val_of_R enc_date (op_dadd_days d n))
   else if op_is op "ar.opdsub" then a2 dec_date arg_u64 args (fun d n => val_of_R enc_date (op_dsub_days d n))
   else if op_is op "ar.opdadds" then a2 dec_date dec_td args (fun d x => val_of_R enc_date (op_dadd_td d x))
